@@ -12,7 +12,7 @@ func init() {
 	register(&propCheck{
 		id:    "C05",
 		level: "other",
-		explanation: "Static necessary conditions of 'cancelling a subprocess terminates its process tree, promptly' — the facts in the source without which no tree kill can work: (P1) every exec.Cmd created in package subprocess is given its own process group before it is used, and the OS-specific attribute really asks for one (Setpgid / CREATE_NEW_PROCESS_GROUP), per GOOS in the thorough tier; (P2) from Stop and from CleanKillOfCommand the call graph reaches the group kill, and the tree-kill keeps its final unconditional Kill; (P3) the cancellation path does not need a lock that is held for the child's whole lifetime: if the lock held around exec.Cmd.Run/Wait is one that the stop callback of the monitor must take, there must be a lock-free kill path — exec.Cmd.Cancel set to a function from which the group kill is reachable; (P4) isRunning is reset on every exit after it was set, in Execute and in stop; (P5) Stop schedules the tree kill before it waits for the child; (P6) the monitor goroutine calls the stop callback after the process context ended and always clears its flag; Execute always cancels the monitoring on exit. Decided on SSA with a must-lockset and CHA call graph; no process is started. Not decided: that signals arrive, descendants that left the group, wall-clock bounds, orphans.",
+		explanation: "Static necessary conditions of 'cancelling a subprocess terminates its process tree, promptly' — the facts in the source without which no tree kill can work: (P1) every exec.Cmd created in package subprocess is given its own process group before it is used, and the OS-specific attribute really asks for one (Setpgid / CREATE_NEW_PROCESS_GROUP), per GOOS in the thorough tier; (P2) from Stop and from CleanKillOfCommand the call graph reaches the group kill, and the tree-kill keeps its final unconditional Kill; (P3) the cancellation path does not need a lock that is held for the child's whole lifetime: if the lock held around exec.Cmd.Run/Wait is one that the stop callback of the monitor must take, there must be a lock-free kill path — exec.Cmd.Cancel set to a function from which the group kill is reachable; (P4) isRunning is reset on every exit after it was set, in Execute and in stop; (P5) Stop kills the process tree in its own flow before it waits for the child (a kill that merely races with Wait finds nothing once Wait has reaped a leader that had already exited); (P7) along CleanKillOfCommand / Stop → KillWithChildren → killProcessAndChildren → killGroup every path to a return passes the next link, error exits and nil guards aside; (P6) the monitor goroutine calls the stop callback after the process context ended and always clears its flag; Execute always cancels the monitoring on exit. Decided on SSA with a must-lockset and CHA call graph; no process is started. Not decided: that signals arrive, descendants that left the group, wall-clock bounds, orphans.",
 		run:   runC05,
 		thoroughConfigs: []string{"darwin/amd64", "windows/amd64"},
 		assumptions: []string{
@@ -51,9 +51,10 @@ func typedLockKey(v ssa.Value) string {
 func runC05(c *Ctx) {
 	c.rule("P1", "every exec.Cmd created in package subprocess passes through setGroupAttrToCmd before it is returned; the attribute requests an own process group (Setpgid:true / CREATE_NEW_PROCESS_GROUP)", 2)
 	c.rule("P2", "the group kill (proc.killGroup) is reachable from cmdWrapper.Stop and from CleanKillOfCommand; killProcessAndChildren keeps its deferred Kill", 3)
+	c.rule("P7", "the kill chain is unconditional: in CleanKillOfCommand, cmdWrapper.Stop, ps.KillWithChildren and killProcessAndChildren every path to a return passes the next link of the chain (… → killGroup), except through the failing side of an error test or the nil side of a nil test", 4)
 	c.rule("P3", "no lock held across exec.Cmd.Run/Wait is needed by the monitor's stop callback, unless exec.Cmd.Cancel is set to a function that reaches the group kill", 1)
 	c.rule("P4", "isRunning.Store(true) is followed by isRunning.Store(false) on every path to exit (Execute); stop() clears the flag on every path after stopping", 2)
-	c.rule("P5", "cmdWrapper.Stop schedules KillWithChildren for the child's pid before waiting for it", 1)
+	c.rule("P5", "cmdWrapper.Stop kills the process tree (KillWithChildren on the process found from the child's pid) in its own flow before it waits for the command", 1)
 	c.rule("P6", "the monitor goroutine calls the stop callback after the process context is done and clears monitoringOn on every path; Execute cancels the monitoring on every exit", 2)
 
 	for _, f := range c.srcFuncs(spPkg) {
@@ -223,10 +224,10 @@ func (c *Ctx) c05LockFree() {
 					blocking[f] = true
 				}
 				if n == "(*os/exec.Cmd).Wait" {
-					// a Wait that follows a scheduled tree kill is bounded (P5); any other Wait lasts as long as the child
+					// a Wait that follows the tree kill is bounded (P5); any other Wait lasts as long as the child
 					killed := false
 					allInstrs(f, func(j ssa.Instruction) {
-						if s, ok := j.(*ssa.Call); ok && strings.Contains(calleeFull(&s.Call), "ScheduleAfter") {
+						if s, ok := j.(*ssa.Call); ok && s.Call.IsInvoke() && s.Call.Method.Name() == "KillWithChildren" && pathAvoiding(s, func(ssa.Instruction) bool { return false }, func(i ssa.Instruction) bool { return i == in }) != nil {
 							killed = true
 						}
 					})
@@ -422,53 +423,83 @@ func (c *Ctx) c05Flags() {
 			c.check(esc == nil, "P4", fname(f)+"/isRunning", c.ipos(stopCall), "cleared after the command was stopped", "isRunning is not cleared on the exit at "+c.iposOr(esc)+" after stopping")
 		}
 	}
-	// P5
+	// P5: the kill must come before Wait, in Stop's own flow. Wait reaps the leader; a leader that has already exited
+	// (its group still alive) cannot be found afterwards, so a kill that merely races with Wait (scheduled, go routine)
+	// finds nothing, the group survives and Wait stays blocked on the pipes it holds.
 	if f := c.fn(spPkg, "(*cmdWrapper).Stop"); f != nil {
-		var wait, sched *ssa.Call
+		var wait *ssa.Call
+		var kill ssa.Instruction
+		deferredKill := ""
 		allInstrs(f, func(in ssa.Instruction) {
 			if cl, ok := in.(*ssa.Call); ok {
-				n := calleeFull(&cl.Call)
-				if n == "(*os/exec.Cmd).Wait" {
+				if calleeFull(&cl.Call) == "(*os/exec.Cmd).Wait" {
 					wait = cl
 				}
-				if strings.HasSuffix(n, "parallelisation.ScheduleAfter") || strings.HasSuffix(n, "parallelisation.SafeScheduleAfter") {
-					sched = cl
+				if cl.Call.IsInvoke() && cl.Call.Method.Name() == "KillWithChildren" {
+					kill = cl
 				}
 			}
 		})
+		withAnon(f, func(g *ssa.Function) {
+			if g == f {
+				return
+			}
+			allInstrs(g, func(in ssa.Instruction) {
+				if cl, ok := in.(*ssa.Call); ok && cl.Call.IsInvoke() && cl.Call.Method.Name() == "KillWithChildren" {
+					deferredKill = c.ipos(cl)
+				}
+			})
+		})
 		good := false
-		why := "Stop waits for the child without having scheduled the kill of its process tree"
-		if wait != nil && sched != nil {
-			// the scheduled literal reaches KillWithChildren and is scheduled on the Process != nil side before Wait
-			var lit *ssa.Function
-			for _, a := range sched.Call.Args {
-				if mc, ok := stripConv(a).(*ssa.MakeClosure); ok {
-					lit, _ = mc.Fn.(*ssa.Function)
+		why := "Stop waits for the child without having killed its process tree"
+		switch {
+		case wait == nil:
+			why = "Stop no longer waits for the command"
+		case kill == nil && deferredKill != "":
+			why = "the kill of the process tree (" + deferredKill + ") runs in a function literal handed to a scheduler or goroutine, concurrently with Wait(): Wait reaps a group leader that has already exited, the literal then cannot find the process any more, the members of its group that are still running are never killed and Stop stays blocked on the pipes they hold"
+		case kill != nil:
+			// Wait is reachable without the kill only through nil guards / error sides
+			esc := pathPruned(f, nil, func(i ssa.Instruction) bool { return i == kill }, func(i ssa.Instruction) bool { return i == ssa.Instruction(wait) }, func(b *ssa.BasicBlock, k int) bool {
+				ifi, ok := b.Instrs[len(b.Instrs)-1].(*ssa.If)
+				if !ok {
+					return false
+				}
+				x, nilSucc, ok := nilTest(ifi)
+				if !ok {
+					return false
+				}
+				if isErrorType(x.Type()) {
+					return k == 1-nilSucc
+				}
+				return k == nilSucc
+			})
+			// the process killed is found from the child's pid
+			fromPid := false
+			if kc, ok := kill.(*ssa.Call); ok {
+				for _, l := range sources(kc.Call.Value, deriveOpts{}) {
+					if ex, ok := l.(*ssa.Extract); ok {
+						if fc, ok := ex.Tuple.(*ssa.Call); ok && strings.HasSuffix(calleeFull(&fc.Call), "proc.FindProcess") {
+							for _, pl := range sources(fc.Call.Args[1], deriveOpts{}) {
+								if _, ok := fieldLoad(pl, "Process", "Pid"); ok {
+									fromPid = true
+								}
+							}
+						}
+					}
 				}
 			}
-			kills := false
-			if lit != nil {
-				allInstrs(lit, func(in ssa.Instruction) {
-					if cl, ok := in.(*ssa.Call); ok && cl.Call.IsInvoke() && cl.Call.Method.Name() == "KillWithChildren" {
-						kills = true
-					}
-				})
-			}
-			before := pathAvoiding(sched, func(ssa.Instruction) bool { return false }, func(i ssa.Instruction) bool { return i == ssa.Instruction(wait) }) != nil
-			// Wait reachable without the schedule only when Process is nil
-			skip := pathFromEntryAvoiding(f, func(i ssa.Instruction) bool { return i == ssa.Instruction(sched) }, func(i ssa.Instruction) bool { return i == ssa.Instruction(wait) })
-			nilSide := skip == nil || onBoolSide(sched, true, func(v ssa.Value) bool {
-				b, ok := v.(*ssa.BinOp)
-				return ok && b.Op == token.NEQ && (isNilConst(b.X) || isNilConst(b.Y))
-			})
-			if kills && before && nilSide {
+			switch {
+			case esc != nil:
+				why = "Wait() can be reached without the process tree having been killed, on a path that is neither a nil guard nor the failure to find the process"
+			case !fromPid:
+				why = "the process whose tree is killed is not the one found from cmd.Process.Pid"
+			default:
 				good = true
-			} else if !kills {
-				why = "the function scheduled by Stop does not kill the process with its children"
 			}
 		}
-		c.check(good, "P5", fname(f), c.pos(f.Pos()), "KillWithChildren scheduled before Wait", why)
+		c.check(good, "P5", fname(f), c.pos(f.Pos()), "KillWithChildren on the process found from the child's pid, in Stop's own flow, before Wait", why)
 	}
+	c.c05KillOnEveryPath()
 	// P6 monitor goroutine
 	if f := c.fn(spPkg, "(*subprocessMonitoring).runProcessMonitoring"); f != nil {
 		var body *ssa.Function
@@ -515,5 +546,86 @@ func (c *Ctx) c05Flags() {
 			}
 		}
 		c.check(good, "P6", fname(f), c.pos(f.Pos()), "waits for the context, calls stop, clears monitoringOn", why)
+	}
+}
+
+// c05KillOnEveryPath (P7): reachability of the group kill (P2) says a path exists; the property needs it on every
+// path. A shortcut such as "the leader has no children, killing it is enough" leaves the other members of the
+// process group (orphans re-parented to init) alive.
+func (c *Ctx) c05KillOnEveryPath() {
+	type link struct {
+		f    *ssa.Function
+		next func(cc *ssa.CallCommon) bool
+		what string
+	}
+	invoke := func(m string) func(cc *ssa.CallCommon) bool {
+		return func(cc *ssa.CallCommon) bool {
+			if cc.IsInvoke() {
+				return cc.Method.Name() == m
+			}
+			g := staticCallee(cc)
+			return g != nil && g.Name() == m
+		}
+	}
+	static := func(g *ssa.Function) func(cc *ssa.CallCommon) bool {
+		return func(cc *ssa.CallCommon) bool { return staticCallee(cc) == g }
+	}
+	kpc := c.fn("proc", "killProcessAndChildren")
+	killGroup := c.fn("proc", "killGroup")
+	links := []link{
+		{c.fn(spPkg, "CleanKillOfCommand"), invoke("KillWithChildren"), "KillWithChildren"},
+		{c.fn("proc", "(*ps).KillWithChildren"), static(kpc), "killProcessAndChildren"},
+		{kpc, static(killGroup), "killGroup"},
+	}
+	if stop := c.fn(spPkg, "(*cmdWrapper).Stop"); stop != nil {
+		links = append(links, link{stop, invoke("KillWithChildren"), "KillWithChildren"})
+	}
+	for _, l := range links {
+		f := l.f
+		if f == nil {
+			continue
+		}
+		c.FuncsSeen[fname(outermost(f))] = true
+		key := fname(outermost(f)) + "/kill-on-every-path"
+		if f != outermost(f) {
+			key = fname(outermost(f)) + "/scheduled/kill-on-every-path"
+		}
+		prune := func(b *ssa.BasicBlock, k int) bool {
+			ifi, ok := b.Instrs[len(b.Instrs)-1].(*ssa.If)
+			if !ok {
+				return false
+			}
+			x, nilSucc, ok := nilTest(ifi)
+			if !ok {
+				return false
+			}
+			if isErrorType(x.Type()) {
+				return k == 1-nilSucc
+			}
+			return k == nilSucc
+		}
+		isNext := func(i ssa.Instruction) bool {
+			cc := callCommon(i)
+			if cc == nil {
+				return false
+			}
+			if _, isDefer := i.(*ssa.Defer); isDefer {
+				return false
+			}
+			return l.next(cc)
+		}
+		has := false
+		allInstrs(f, func(i ssa.Instruction) {
+			if isNext(i) {
+				has = true
+			}
+		})
+		if !has {
+			c.violate("P7", key, c.pos(f.Pos()), "no call of "+l.what+" at all")
+			continue
+		}
+		esc := pathPruned(f, nil, isNext, isReturn, prune)
+		c.check(esc == nil, "P7", key, c.pos(f.Pos()), "every path to a return passes "+l.what+" (error exits and nil guards aside)",
+			"the return at "+c.iposOr(esc)+" is reached without "+l.what+" having been called, on a path that is neither an error exit nor a nil guard: for that case only the process itself is killed and the other members of its process group (orphans whose parent has exited) survive")
 	}
 }
